@@ -120,6 +120,10 @@ def main(prop):
         pcov, ps, pt = protocol_stage.run(prop, wd, thorough)
         lcov.update(pcov)
         states += ps; trans += pt
+        import conform_stage
+        ccov, cs, ct = conform_stage.run(files, thorough)
+        lcov.update(ccov)
+        states += cs; trans += ct
     if prop == 'C20':
         import lifecycle_stage
         lv, lcov2, ls, lt, ln = lifecycle_stage.run(prop, wd, thorough)
